@@ -11,13 +11,15 @@ sequence of fields
     ("fix", bytes, label)                                    opaque fixed-size field (address,
                                                              EUI, locator): swept 00.. / ff..
 
-``cases(quick)`` yields, per layout, the unmodified specimen and then the specimen in which
-exactly one integer field takes each value of its sweep set (0, 1, max-1, max of its width
-plus the interior boundaries of the code spaces stored in such fields: 4095/4096 for extended
-RCODEs, 127/128, 2**31-1/2**31, ...), the length octets of counted fields likewise, every
-fixed-size opaque field all-zeros / all-ones, and all integer fields at 0 / at max together.
-``wrap_message`` puts such an RDATA into a response message (answer section; OPT and TSIG in
-the additional section, TSIG last, class ANY) with the independent encoder of _c04_gen.
+``cases()`` (the BASE set, identical in both tiers) yields, per layout, the unmodified
+specimen and then the specimen in which exactly one integer field takes each value of its
+sweep set (0, 1, max-1, max of its width plus the interior boundaries of the code spaces stored
+in such fields: 4095/4096 for extended RCODEs, 127/128, 2**31-1/2**31, ...), the length octets
+of counted fields likewise, every fixed-size opaque field all-zeros / all-ones, and all integer
+fields at 0 / 1 / max-1 / max together.  ``extra_cases()`` (thorough tier) adds the interior:
+every octet value, 16-bit neighbourhoods and, for the "full" code-point fields, all 65 536
+values.  ``wrap_message`` puts such an RDATA into a response message (answer section; OPT and
+TSIG in the additional section, TSIG last, class ANY) with the independent encoder of _c04_gen.
 
 Nothing here is seeded: the generator is systematic and identical in every run of a tier.
 """
@@ -32,6 +34,9 @@ WIDTH = {"u8": 1, "u16": 2, "u32": 4, "u48": 6}
 
 # ---------------------------------------------------------------------------- sweep sets
 _U8_EDGE = [0, 1, 2, 3, 4, 5, 9, 10, 15, 16, 17, 127, 128, 129, 153, 154, 253, 254, 255]
+# quick tier, code-point octets: the small registry values and the nibble boundaries
+_U8_DENSE = set(range(0, 24)) | {0x19, 0x1A, 0x20, 0x21, 0x3F, 0x40, 0x41, 0x7E, 0x80, 0x81, 0x82, 0x83, 0x84, 0x8F,
+                                 0x90, 0x91, 0x99, 0x9A, 0xA0, 0xA9, 0xAA, 0xF0, 0xF9, 0xFA}
 _U16_EDGE = [0, 1, 2, 3, 15, 16, 22, 23, 24, 41, 249, 250, 251, 252, 254, 255, 256, 257, 4094, 4095, 4096, 4097,
              32767, 32768, 65279, 65280, 65534, 65535]
 _U32_EDGE = [0, 1, 2, 255, 256, 65535, 65536, 0x7FFFFFFE, 0x7FFFFFFF, 0x80000000, 0x80000001, 0xFFFFFFFE, 0xFFFFFFFF]
@@ -48,33 +53,44 @@ def _pow2_neighbours(bits):
     return out
 
 
-def sweep(kind, quick, dense=False):
-    """Values an integer field of *kind* takes.  *dense*: the field is a code point of a
-    registry (type, error, mode, algorithm ...): more interior values."""
+def sweep(kind, dense=False):
+    """BASE set (both tiers): values an integer field of *kind* takes.  *dense*: the field is
+    a code point of a registry (type, error, mode, algorithm ...) or nibble-coded: more
+    interior values ("full": every value of an octet)."""
     if kind == "u8":
-        # thorough: all 256 values; quick: all 256 for code-point / nibble-coded octets
-        # (the edge list decides which of them are also wrapped into messages)
-        return list(range(256)) if (dense or not quick) else list(_U8_EDGE)
+        if dense == "full":
+            return list(range(256))
+        return sorted(set(_U8_EDGE) | _U8_DENSE) if dense else list(_U8_EDGE)
     if kind == "u16":
         s = set(_U16_EDGE)
-        if not quick:
-            s |= _pow2_neighbours(16) | set(range(0, 300)) | set(range(4090, 4102)) | set(range(65270, 65536))
-            if dense:
-                s |= set(range(65536))
-        elif dense:
+        if dense:
             s |= set(range(0, 70)) | set(range(240, 262))
         return sorted(s)
     if kind == "u32":
-        s = set(_U32_EDGE)
-        if not quick:
-            s |= _pow2_neighbours(32)
-        return sorted(s)
+        return list(_U32_EDGE)
     if kind == "u48":
-        s = set(_U48_EDGE)
-        if not quick:
-            s |= _pow2_neighbours(48)
-        return sorted(s)
+        return list(_U48_EDGE)
     raise ValueError(kind)
+
+
+def sweep_extra(kind, dense=False):
+    """THOROUGH additions to sweep(): every octet value; for 16-bit fields 0..299, the
+    neighbourhood of every power of two, of 4096 and of the private-use range, and for the
+    "full" code-point fields all 65 536 values; powers of two +-1 for the wider fields."""
+    if kind == "u8":
+        s = set(range(256))
+    elif kind == "u16":
+        if dense == "full":
+            s = set(range(65536))
+        else:
+            s = _pow2_neighbours(16) | set(range(0, 300)) | set(range(4090, 4102)) | set(range(65270, 65536))
+    elif kind == "u32":
+        s = _pow2_neighbours(32)
+    elif kind == "u48":
+        s = _pow2_neighbours(48)
+    else:
+        raise ValueError(kind)
+    return sorted(s - set(sweep(kind, dense)))
 
 
 def edge(kind):
@@ -190,7 +206,7 @@ LAYOUTS = [
     (IN, 27, "GPOS", [C8(b"-22.6882"), C8(b"116.8652"), C8(b"250.0")]),
     (IN, 28, "AAAA", [FIX(_V6, "address")]),
     # RFC 1876: size/precision octets are base/exponent nibbles (each 0..9)
-    (IN, 29, "LOC", [U8(0, "version", dense=True), U8(0x12, "size", dense=True), U8(0x16, "horiz_pre", dense=True), U8(0x13, "vert_pre", dense=True),
+    (IN, 29, "LOC", [U8(0, "version", dense=True), U8(0x12, "size", dense="full"), U8(0x16, "horiz_pre", dense="full"), U8(0x13, "vert_pre", dense="full"),
                      U32(_LAT, "latitude", 0x80000000 + _D90, 0x80000000 + _D90 + 1, 0x80000000 - _D90, 0x80000000 - _D90 - 1,
                          0x80000000 + _D90 - 1, 0x80000000 + 3600000, 0x80000000 + 999, 0x80000000 - 999),
                      U32(_LON, "longitude", 0x80000000 + _D180, 0x80000000 + _D180 + 1, 0x80000000 - _D180,
@@ -202,12 +218,12 @@ LAYOUTS = [
     (IN, 37, "CERT", [U16(1, "certificate_type", dense=True), U16(12345, "key_tag"), U8(8, "algorithm"), RAW(_SIG)]),
     (IN, 39, "DNAME", [N("dname-target.example.")]),
     # RFC 6891 6.1.2: {code u16, length u16, data}
-    (IN, 41, "OPT-nsid", [U16(3, "option_code", dense=True), C16(b"test")]),
+    (IN, 41, "OPT-nsid", [U16(3, "option_code", dense="full"), C16(b"test")]),
     (IN, 41, "OPT-ecs", [U16(8, "option_code", dense=True), U16(7, "option_length"), U16(1, "ecs_family", dense=True),
                          U8(24, "ecs_source_prefix", dense=True), U8(0, "ecs_scope_prefix", dense=True), RAW(bytes([10, 0, 0]))]),
     (IN, 41, "OPT-ecs6", [U16(8, "option_code"), U16(11, "option_length"), U16(2, "ecs_family"),
                           U8(56, "ecs_source_prefix", dense=True), U8(0, "ecs_scope_prefix", dense=True), RAW(bytes.fromhex("20010db8000000"))]),
-    (IN, 41, "OPT-ede", [U16(15, "option_code", dense=True), U16(6, "option_length"), U16(3, "ede_info_code", dense=True),
+    (IN, 41, "OPT-ede", [U16(15, "option_code", dense=True), U16(6, "option_length"), U16(3, "ede_info_code", dense="full"),
                          RAW(b"blah")]),
     (IN, 41, "OPT-cookie", [U16(10, "option_code"), C16(bytes(range(1, 9))), U16(12, "option_code2"), C16(bytes(4))]),
     # RFC 3123: {family u16, prefix u8, N|afdlength u8, afdpart}
@@ -221,7 +237,7 @@ LAYOUTS = [
     (IN, 45, "IPSECKEY-none", [U8(10, "precedence"), U8(0, "gateway_type", dense=True), U8(2, "algorithm"), RAW(_KEY)]),
     (IN, 45, "IPSECKEY-v6", [U8(10, "precedence"), U8(2, "gateway_type", dense=True), U8(2, "algorithm"), FIX(_V6, "gateway"), RAW(_KEY)]),
     (IN, 45, "IPSECKEY-name", [U8(10, "precedence"), U8(3, "gateway_type", dense=True), U8(2, "algorithm"), N("gw.example."), RAW(_KEY)]),
-    (IN, 46, "RRSIG", [U16(1, "type_covered", dense=True), U8(8, "algorithm"), U8(2, "labels", dense=True), U32(300, "original_ttl"),
+    (IN, 46, "RRSIG", [U16(1, "type_covered", dense="full"), U8(8, "algorithm"), U8(2, "labels", dense=True), U32(300, "original_ttl"),
                        U32(1577836800, "expiration"), U32(1041379200, "inception"), U16(4660, "key_tag"),
                        N("example."), RAW(_SIG)]),
     (IN, 47, "NSEC", [N("next.example."), U8(0, "window", dense=True), U8(7, "bitmap_length", dense=True), RAW(_BITMAP0),
@@ -269,12 +285,12 @@ LAYOUTS = [
     (IN, 109, "EUI64", [FIX(bytes.fromhex("00005eef1000002a"), "eui64")]),
     # RFC 2930 2: algorithm, inception, expiration, mode, error, key size+data, other size+data
     (ANY, 249, "TKEY", [N("gss-tsig."), U32(1041379200, "inception"), U32(1577836800, "expiration"), U16(3, "mode", dense=True),
-                        U16(0, "error", dense=True), C16(bytes(range(1, 9))), C16(b"\x01\x02\x03")]),
+                        U16(0, "error", dense="full"), C16(bytes(range(1, 9))), C16(b"\x01\x02\x03")]),
     (ANY, 249, "TKEY-noother", [N("gss-tsig."), U32(0, "inception"), U32(0xFFFFFFFF, "expiration"), U16(2, "mode", dense=True),
                                 U16(17, "error", dense=True), C16(b"\x00"), C16(b"")]),
     # RFC 8945 4.2: algorithm, time signed u48, fudge, MAC size+MAC, original id, error, other len+data
     (ANY, 250, "TSIG", [N("hmac-sha256."), U48(1577836800, "time_signed"), U16(300, "fudge"), C16(bytes(32)),
-                        U16(0x1234, "original_id"), U16(0, "error", dense=True), C16(b"")]),
+                        U16(0x1234, "original_id"), U16(0, "error", dense="full"), C16(b"")]),
     (ANY, 250, "TSIG-badtime", [N("hmac-sha256."), U48(1577836800, "time_signed"), U16(300, "fudge"), C16(bytes(32)),
                                 U16(0x1234, "original_id"), U16(18, "error", dense=True), C16(bytes.fromhex("00005e0b8e01"))]),
     (IN, 256, "URI", [U16(10, "priority"), U16(1, "weight"), RAW(b"ftp://ftp1.example.com/public")]),
@@ -298,24 +314,32 @@ def covered_types():
 
 
 # ---------------------------------------------------------------------------- case generator
-def cases(quick):
-    """Yields dicts: rdclass, rdtype, layout, field (label or None), kind, value, wire, edge.
-    *edge*: the value belongs to the edge set of its width (or is a per-field boundary): such
-    cases are additionally wrapped into messages."""
+def _int_cases(base, fields, i, vals, edges):
+    kind, val, label = fields[i][0], fields[i][1], fields[i][2]
+    for v in vals:
+        if v == val:
+            continue
+        yield dict(base, field=label, kind=kind, value=v, wire=build(fields, {i: _enc_int(kind, v)}), edge=v in edges)
+
+
+def _edges(f):
+    kind, val, label, extra, dense = f
+    top = (1 << (8 * WIDTH[kind])) - 1
+    return {v for v in set(edge(kind)) | set(extra) | {val - 1, val + 1} if 0 <= v <= top}
+
+
+def cases():
+    """BASE set, identical in both tiers.  Yields dicts: rdclass, rdtype, layout, field (label
+    or None), kind, value, wire, edge.  *edge*: the value belongs to the edge set of its width
+    (or is a per-field boundary): such cases are additionally wrapped into messages."""
     for cls, t, lname, fields in LAYOUTS:
         base = {"rdclass": cls, "rdtype": t, "layout": lname}
         yield dict(base, field=None, kind="specimen", value=None, wire=build(fields), edge=True)
         int_idx = [i for i, f in enumerate(fields) if f[0] in WIDTH]
         for i in int_idx:
-            kind, val, label, extra, dense = fields[i]
-            top = (1 << (8 * WIDTH[kind])) - 1
-            edges = set(edge(kind)) | set(extra) | {val - 1, val + 1}
-            edges = {v for v in edges if 0 <= v <= top}
-            vals = sorted(set(sweep(kind, quick, dense)) | edges)
-            for v in vals:
-                if v == val:
-                    continue
-                yield dict(base, field=label, kind=kind, value=v, wire=build(fields, {i: _enc_int(kind, v)}), edge=v in edges)
+            edges = _edges(fields[i])
+            vals = sorted(set(sweep(fields[i][0], fields[i][4])) | edges)
+            yield from _int_cases(base, fields, i, vals, edges)
         # the length prefixes of counted fields are fixed-width integers too
         for i, f in enumerate(fields):
             if f[0] in ("c8", "c16"):
@@ -342,6 +366,23 @@ def cases(quick):
                                ("all-max-1", lambda k: (1 << (8 * WIDTH[k])) - 2), ("all-one", lambda k: 1)):
                 sub = {i: _enc_int(fields[i][0], pick(fields[i][0])) for i in int_idx}
                 yield dict(base, field=name, kind="all", value=None, wire=build(fields, sub), edge=True)
+
+
+def extra_cases():
+    """THOROUGH additions (never edge: rdata.from_wire only), cheapest classes first so that a
+    budget cut removes the 65 536-value sweeps last-in-first."""
+    for full_pass in (False, True):
+        for cls, t, lname, fields in LAYOUTS:
+            base = {"rdclass": cls, "rdtype": t, "layout": lname}
+            for i, f in enumerate(fields):
+                if f[0] not in WIDTH:
+                    continue
+                is_full = f[0] == "u16" and f[4] == "full"
+                if is_full != full_pass:
+                    continue
+                have = set(sweep(f[0], f[4])) | _edges(f)
+                vals = [v for v in sweep_extra(f[0], f[4]) if v not in have]
+                yield from _int_cases(base, fields, i, vals, ())
 
 
 # ---------------------------------------------------------------------------- message wrapper
